@@ -890,6 +890,19 @@ func (st *State) havoc(patterns []string, except []string) {
 			}
 		}
 	}
+	for _, p := range patterns {
+		if strings.HasPrefix(p, "UB:") {
+			// update builders may have been filled in by the havocked code: their engine-side assignment lists are stale
+			if w, ok := st.ghostObj["ent"].(*entWorld); ok {
+				for _, b := range w.builders {
+					if b.Kind == "update" {
+						b.Sym = true
+					}
+				}
+			}
+			break
+		}
+	}
 }
 
 func (st *State) snapshot() *HeapView { return st.heap.clone() }
@@ -905,8 +918,8 @@ func (st *State) touchedKeys() []string {
 	}
 	for k := range seen {
 		s, ok := st.e.keySort[k]
-		if !ok {
-			continue
+		if !ok || strings.HasPrefix(k, "UB|") {
+			continue // UB|: mirrors of engine-side update builders, not program state
 		}
 		cur := st.heapGet(st.heap, k, s, st.e.keyIsRef[k])
 		pre := st.heapGet(st.pre, k, s, st.e.keyIsRef[k])
